@@ -239,16 +239,29 @@ def bisect(profile, shape, api, lo, hi, rel):
     return lo, hi, last, probes
 
 
+def _retry(f, n=4):
+    """the shared executables may be mid-rebuild by a concurrent check (it holds the build lock): wait for the lock, retry"""
+    for i in range(n):
+        try:
+            return f()
+        except (TypeError, OSError):
+            if i == n - 1:
+                raise
+            with core.Lock():
+                pass
+            time.sleep(1 + i)
+
+
 def tie_checks(res, tier):
     """model <-> implementation for what the theorems speak about"""
     n = 0
     ds = list(range(0, 13)) + [50, 255, 256, 1000] + ([3000] if tier == "thorough" else [])
     texts = ["- " * d + "a" for d in ds]
     lines = [enc(s) for s in texts]
-    toks = run_hx(["tokens"], lines)
-    evs = run_hx(["events", "str"], lines)
-    m_tok = run_mx(["parse-tokens"], toks)
-    m_full = run_mx(["events", "str"], lines)
+    toks = _retry(lambda: run_hx(["tokens"], lines))
+    evs = _retry(lambda: run_hx(["events", "str"], lines))
+    m_tok = _retry(lambda: run_mx(["parse-tokens"], toks))
+    m_full = _retry(lambda: run_mx(["events", "str"], lines))
 
     def kinds(line):
         e, fin = split_line(line)
@@ -273,8 +286,8 @@ def tie_checks(res, tier):
     fl = [1, 2, 254, 255, 256, 257, 300]
     ftexts = [build_input(sh, d) for sh in FLOW_SHAPES for d in fl]
     flines = [enc(s) for s in ftexts]
-    fi = run_hx(["events", "str"], flines)
-    fm = run_mx(["events", "str"], flines)
+    fi = _retry(lambda: run_hx(["events", "str"], flines))
+    fm = _retry(lambda: run_mx(["events", "str"], flines))
     k = 0
     for sh in FLOW_SHAPES:
         for d in fl:
@@ -344,6 +357,8 @@ def check_C11(tier, seed):
                                        input_bytes=next((x.split("=")[1] for x in last["stages"] if x.startswith("input bytes=")), "?")))
         sweep_secs = round(time.time() - t0, 1)
         kinds = {}
+        # shallowest scenarios first: the first violation reported is the smallest one
+        obs.sort(key=lambda o: (o["depth"], o["shape"], o["api"], o["profile"]))
         for o in obs:
             res.evaluations += 1
             kinds[o["kind"]] = kinds.get(o["kind"], 0) + 1
